@@ -208,8 +208,8 @@ pub fn run(ctx: &Ctx, rep: &mut Report) {
     let chunk = 500u64;
     let n_chunks = (n_hist + chunk - 1) / chunk;
     for ci in ctx.indices(n_chunks) {
-        if ctx.out_of_time() {
-            rep.notes.push(format!("stopped at history chunk {} (time budget)", ci));
+        if ctx.out_of_fraction(0.6) {
+            rep.notes.push(format!("stopped at history chunk {} (time budget of part A)", ci));
             break;
         }
         rep.progress_idx(ci, "C08 history chunk");
